@@ -203,6 +203,7 @@ func checkC19(r *Run) {
 	r.Rule("C19.R8.saturate", "a float -> integer cast saturates instead of trapping", 2)
 	r.Rule("C19.R9.signsat", "a signed <-> unsigned integer cast whose source range exceeds the target range saturates at the target's bounds", 2)
 	r.Rule("C19.R10.logic", "in the 'or'/'and' lowering every operand compile is followed by normalizeBoolean (value != 0) before the join; the short-circuit arm pushes 1 for 'or' and 0 for 'and'", 6)
+	r.Rule("C19.R12.bound", "every local the emitted loop header and increment read is a hidden '__for_*' local or a loop variable, resolved once from the loop scope (range bounds are fixed on loop entry)", 10)
 	r.Rule("C19.R11.depth", "at every nested statement compilation the context's block depth equals the number of open emitted blocks; LoopEntry.BreakDepth names a 'block', ContinueDepth a 'block' or 'loop' strictly inside it, both read when they name the innermost open block", 12)
 
 	c := &c19{r: r, p: p, kindObj: map[string]*types.Const{}, switchOp: map[string]bool{}}
@@ -228,6 +229,143 @@ func checkC19(r *Run) {
 	c.checkWrap()
 	c.checkLogic()
 	c.checkDepth()
+	c.checkLoopHeaderReads()
+}
+
+// checkLoopHeaderReads decides C19.R12: the bounds of a range loop are evaluated once.
+// Everything the emitted loop header and increment read (local.get after the 'loop'
+// instruction was written) is a hidden local of the loop ("__for_*", set before the
+// loop) or one of the loop's own variables, never a user variable the body can assign.
+func (c *c19) checkLoopHeaderReads() {
+	n := 0
+	for _, fn := range c.p.FuncsOfPkg(arcStmtPkg) {
+		if fn.Decl == nil || fn.Body == nil {
+			continue
+		}
+		var loopAt token.Pos
+		inspectNoLit(fn.Body, func(x ast.Node) bool {
+			if call, ok := x.(*ast.CallExpr); ok && loopAt == token.NoPos {
+				if f := CalleeFunc(fn, call); f != nil && f.Name() == "WriteLoop" && recvNamed(f) == "Writer" {
+					loopAt = call.End()
+				}
+			}
+			return true
+		})
+		if loopAt == token.NoPos {
+			continue
+		}
+		strParams := map[types.Object]bool{}
+		for i := 0; ; i++ {
+			po := paramObj(fn, i)
+			if po == nil {
+				break
+			}
+			if b, ok := po.Type().Underlying().(*types.Basic); ok && b.Kind() == types.String {
+				strParams[po] = true
+			}
+		}
+		// symOK: a symbol variable defined once from Resolve(ctx, "__for_*" | loop variable name)
+		symOK := func(o types.Object) (bool, string) {
+			var defs []ast.Expr
+			inspectNoLit(fn.Body, func(x ast.Node) bool {
+				if as, ok := x.(*ast.AssignStmt); ok {
+					for i, l := range as.Lhs {
+						if objOf(fn, l) == o {
+							if len(as.Rhs) == 1 {
+								defs = append(defs, as.Rhs[0])
+							} else if i < len(as.Rhs) {
+								defs = append(defs, as.Rhs[i])
+							}
+						}
+					}
+				}
+				return true
+			})
+			if len(defs) != 1 {
+				return false, fmt.Sprintf("%s has %d definitions", o.Name(), len(defs))
+			}
+			call, ok := ast.Unparen(defs[0]).(*ast.CallExpr)
+			if !ok || len(call.Args) != 2 {
+				return false, o.Name() + " is not a scope lookup"
+			}
+			f := CalleeFunc(fn, call)
+			if f == nil || f.Name() != "Resolve" {
+				return false, o.Name() + " is not a scope lookup"
+			}
+			if sname, ok := constString(fn, call.Args[1]); ok {
+				if strings.HasPrefix(sname, "__for_") {
+					return true, ""
+				}
+				return false, "looks up " + sname
+			}
+			if po := objOf(fn, call.Args[1]); po != nil && strParams[po] {
+				return true, ""
+			}
+			return false, o.Name() + " looks up a name that is neither a hidden loop local nor a loop variable"
+		}
+		idxOK := func(e ast.Expr) (bool, string) {
+			e = ast.Unparen(e)
+			if sel, ok := e.(*ast.SelectorExpr); ok && sel.Sel.Name == "ID" {
+				if so := objOf(fn, sel.X); so != nil {
+					return symOK(so)
+				}
+			}
+			o := objOf(fn, e)
+			if o == nil {
+				return false, "not a variable"
+			}
+			var defs []ast.Expr
+			inspectNoLit(fn.Body, func(x ast.Node) bool {
+				if as, ok := x.(*ast.AssignStmt); ok {
+					for i, l := range as.Lhs {
+						if objOf(fn, l) == o {
+							if len(as.Lhs) == len(as.Rhs) {
+								defs = append(defs, as.Rhs[i])
+							} else {
+								defs = append(defs, nil)
+							}
+						}
+					}
+				}
+				return true
+			})
+			if len(defs) != 1 || defs[0] == nil {
+				return false, fmt.Sprintf("%s has %d definitions (one of them is not '<symbol>.ID')", o.Name(), len(defs))
+			}
+			sel, ok := ast.Unparen(defs[0]).(*ast.SelectorExpr)
+			if !ok || sel.Sel.Name != "ID" {
+				return false, o.Name() + " is not defined as <symbol>.ID"
+			}
+			so := objOf(fn, sel.X)
+			if so == nil {
+				return false, o.Name() + " is not defined as <symbol>.ID"
+			}
+			return symOK(so)
+		}
+		seen := map[string]int{}
+		inspectNoLit(fn.Body, func(x ast.Node) bool {
+			call, ok := x.(*ast.CallExpr)
+			if !ok || call.Pos() < loopAt || len(call.Args) != 1 {
+				return true
+			}
+			f := CalleeFunc(fn, call)
+			if f == nil || f.Name() != "WriteLocalGet" || recvNamed(f) != "Writer" {
+				return true
+			}
+			n++
+			good, why := idxOK(call.Args[0])
+			key := fmt.Sprintf("%s: local.get %s in the loop header/increment", fn.Name, types.ExprString(call.Args[0]))
+			seen[key]++
+			if seen[key] > 1 {
+				key = fmt.Sprintf("%s #%d", key, seen[key])
+			}
+			c.r.Ob("C19.R12.bound", key, posOf(c.p, call), good, "the loop re-reads a local that is not fixed on loop entry ("+why+"): a body that assigns it changes the iteration count")
+			return true
+		})
+	}
+	if n < 10 {
+		c.r.Undecide("C19.R12: only %d local.get emissions after WriteLoop found (expected >= 10)", n)
+	}
 }
 
 // ---------------------------------------------------------------------------------
